@@ -166,6 +166,11 @@ impl BuiltInFunction {
                     unreachable!()
                 };
 
+                if v.0.borrow().is_empty() {
+                    // nothing to call the callback on
+                    return Ok((Some(Primitive::Vector(GcVector::default())), None));
+                }
+
                 #[derive(Debug)]
                 struct MapOp {
                     callback_path: String,
@@ -243,6 +248,11 @@ impl BuiltInFunction {
                 let Some(Primitive::Vector(v)) = arguments.first() else {
                     unreachable!()
                 };
+
+                if v.0.borrow().is_empty() {
+                    // nothing to call the callback on
+                    return Ok((Some(Primitive::Vector(GcVector::default())), None));
+                }
 
                 #[derive(Debug)]
                 struct FilterOp {
